@@ -4,7 +4,7 @@ PROPS[pid]["rules"] = [(rule id, floor of decided instances, selector over insta
 Floors are the numbers counted on the tree the rules were written against: a rule that suddenly
 matches fewer sites is a broken check (exit 2), never a silent pass.
 """
-from . import wf, dp, dt, he, gl, ts, ee, sl, wp, fs, ic, nb, im, rn, mp, sp, ms, cp, sh, st, rh, vo, wi, law, cn, pr, dtr
+from . import wf, dp, dt, he, gl, ts, ee, sl, wp, fs, ic, nb, im, rn, mp, sp, ms, cp, sh, st, rh, vo, wi, law, cn, pr, dtr, sa, vx
 
 
 def has(*subs):
@@ -43,6 +43,8 @@ RULES = {
     "CN": {"run": cn.run},
     "PR": {"run": pr.run},
     "DTR": {"run": dtr.run},
+    "SA": {"run": sa.run},
+    "VX": {"run": vx.run},
 }
 
 BDD_T = ("BddNode", "BddPtr")
@@ -72,7 +74,7 @@ PROPS = {
         "level": "other",
         "rules": [("CP", 32, has("builder::sdd::", "repr::sdd::SddPtr")), ("DT", 7, has("SddPtr", "BottomUpBuilder::or:", "BottomUpBuilder::compose:")),
                   ("IM", 14, has("IM2", "IM3")), ("HE", 4, has("BinarySDD:scratch", "SddOr:scratch", "BinarySDD:fields", "SddOr:fields")),
-                  ("ST", 2, None), ("SH", 1, has("SddPtr> for T>::condition"))],
+                  ("ST", 2, None), ("SH", 1, has("SddPtr> for T>::condition")), ("SA", 12, None), ("VX", 9, None)],
         "explanation": "Complement coherence of every place the SDD code touches subs/children of a possibly complemented node "
                        "(and_sub_desc, and_prime_desc, and_cartesian, condition, SddPtr::{low,high,neg,is_neg}): operands of "
                        "and/ite/..., elements of result nodes and traversal recursion denote the same thing for a regular and "
@@ -195,7 +197,7 @@ PROPS = {
     },
     "C14": {
         "level": "other",
-        "rules": [("IC", 13, hasnot("repr::cnf::Cnf::from_dimacs")), ("VO", 15, None), ("DTR", 5, None)],
+        "rules": [("IC", 13, hasnot("repr::cnf::Cnf::from_dimacs")), ("VO", 15, None), ("DTR", 5, None), ("VX", 9, None)],
         "explanation": "Dimension analysis (Index / Count / OneBased): every function called num_vars returns a count, every "
                        "num_vars field is initialised with a count, label-indexed table sizes are counts (IC). Not decided: "
                        "permutation-ness of heuristic orders, dtree cutsets, LCA / in-order index arithmetic.",
